@@ -19,6 +19,7 @@ import EaselModel.Sqio.EmblSpec
 import EaselModel.Sqio.EmblAll
 import EaselModel.Sqio.FileWindows
 import EaselModel.Sqio.EmblWin
+import EaselModel.Sqio.RevWindowGeo
 /-! # C04 — all ways of reading a sequence file agree with each other and with the file
 
 Property theorems only (proofs are glue on `Sqio/Windows.lean`, `Sqio/Refine.lean`, `Sqio/Spec.lean`).
@@ -32,11 +33,12 @@ Proved here for every byte string and every read-block size `B ≥ 1` (FASTA): r
 status returns exactly the records and final status of the declarative parser `specFasta` (`read_all_eq_specFasta`; name,
 description, residues, true `roff` / `hoff` / `doff` / `eoff`, `L`), hence is block-size independent; `Read`, `ReadInfo`,
 `ReadSequence` agree field by field (`read_readInfo_readSequence_agree`); the forward `ReadWindow` series delivers the residues of
-`Read` (`windows_concat_eq_read`, see the section at the end); the window schedule (forward and reverse) tiles `1..L`
-(`fwd_windows_tile`, `rev_windows_tile`). Still tied by the exact differential run + monitors only: the line-based formats,
-reverse-strand windows when the handle holds a line geometry (without one: `rev_first_window_eq_revcomp_slice`, `rev_next_window_eq_revcomp_slice`),
-long-target `ReadBlock`; the line-based formats: block-size independence of `Read` is a theorem (`read_linebased_block_size_independent`),
-`Read` = a declarative parser is not. -/
+`Read` (`windows_eq_read`, `windows_concat_eq_read`, `file_windows_eq_specFasta`); reverse-strand windows are the reverse complement of
+the slice of the scanned record (`rev_*_window_eq_revcomp_slice*`) on a schedule that tiles `1..L` (`fwd_windows_tile`,
+`rev_windows_tile`); whole-sequence `ReadBlock` (`readBlock_short_eq_read`); write + re-read, text and digital
+(`write_read_roundtrip*`); the line-based formats: all five read calls are block-size independent (`read_all_linebased_*`,
+`readWindow_readBlock_linebased_*`). Still tied by the exact differential run + monitors only: long-target `ReadBlock`, a declarative
+parser (Read = spec) and cross-call agreement for the line-based formats, daemon / hmmpgmd, gzip / stdin sources. -/
 namespace EaselModel.Props.C04
 open EaselModel.Sqio EaselModel.Sqio.Windows
 
@@ -589,6 +591,42 @@ theorem rev_next_window_eq_revcomp_slice (bytes : Bytes) (abc : Nat) (habc : abc
       (revOf { sq with C := (revNext sq.L C W sq.end_).1, end_ := (revNext sq.L C W sq.end_).2.1,
                        start := (revNext sq.L C W sq.end_).2.2.1, W := (revNext sq.L C W sq.end_).2.2.2 } s.seq).2.1 :=
   RevWindowSpec.rev_next_window_brute bytes abc habc s hs a hf hb hr hB hi heof hgeo sq hdig hsabc hdoff hL hst hlo hhi C W hC hW
+
+open EaselModel.Sqio.ParseFasta EaselModel.Sqio.RevWindowSpec EaselModel.Sqio.BodySpec in
+/-- **Reverse windows when the handle holds a line geometry (`bpl, rpl > 0`), line addressing (`bpl ≠ rpl + 1`)**: `revTail a sq` is the
+    reverse-strand call after the schedule (`revInit` / `revNext`) has set `start`, `end`, `C`, `W` (`readWindow_rev_first` / `_next` are the
+    equations; `RevWindowGeo.rev_first_window_line` … the composed forms). If the record's data really begins with `(start−1)/r` complete
+    lines of `b` bytes and `r` residues — what `bpl, rpl > 0` is meant to promise, and what the known finding shows the tracker does not
+    always deliver — the window is `esl_sq_ReverseComplement` of `s.seq[start..end]`, for every block size. -/
+theorem rev_window_eq_revcomp_slice_line (bytes : Bytes) (abc : Nat) (habc : abc ∈ [0, 1, 2, 3]) (s : Sq) (hs : s ∈ (parseFasta abc bytes).1)
+    (a : Ascii) (hf : a.file = bytes) (hb : a.linebased = false) (hr : a.recording ≠ 1) (hB : 1 ≤ a.B)
+    (hi : a.inmap = inmapFasta abc) (heof : a.eofIsOk = true)
+    (b r : Nat) (hbpl : a.trk.bpl = (b : Int)) (hrpl : a.trk.rpl = (r : Int)) (hr0 : 0 < r) (hb0 : 0 < b) (hne : b ≠ r + 1)
+    (sq : Sq) (hdig : sq.digital = (abc != 0)) (hsabc : sq.abc = abc) (hdoff : sq.doff = s.doff)
+    (h1 : 1 ≤ sq.start) (h2 : sq.start ≤ sq.end_) (h3 : sq.end_ ≤ s.L) (hcw : sq.C + sq.W = sq.end_ - sq.start + 1)
+    (lines : List (List UInt8)) (tail : List UInt8) (hgeo : bytes.toList.drop s.doff.toNat = lines.flatten ++ tail)
+    (hfull : Geometry.FullLines (isRes (inmapFasta abc)) b r lines)
+    (hdat : ∀ c ∈ lines.flatten, isData (inmapFasta abc) c = true) (hl : lines.length = (sq.start.toNat - 1) / r) :
+    (revTail a sq).2.1 = (revOf sq s.seq).1 ∧ (revTail a sq).2.2 = (revOf sq s.seq).2.1 :=
+  RevWindowGeo.revTail_line bytes abc habc s hs a hf hb hr hB hi heof b r hbpl hrpl hr0 hb0 hne sq hdig hsabc hdoff h1 h2 h3 hcw lines tail
+    hgeo hfull hdat hl
+
+open EaselModel.Sqio.ParseFasta EaselModel.Sqio.RevWindowSpec EaselModel.Sqio.BodySpec in
+/-- the same under residue addressing (`bpl = rpl + 1`): moreover the line holding residue `start` begins with more than `(start−1) % r`
+    residues and nothing else before them -/
+theorem rev_window_eq_revcomp_slice_residue (bytes : Bytes) (abc : Nat) (habc : abc ∈ [0, 1, 2, 3]) (s : Sq) (hs : s ∈ (parseFasta abc bytes).1)
+    (a : Ascii) (hf : a.file = bytes) (hb : a.linebased = false) (hr : a.recording ≠ 1) (hB : 1 ≤ a.B)
+    (hi : a.inmap = inmapFasta abc) (heof : a.eofIsOk = true)
+    (r : Nat) (hbpl : a.trk.bpl = ((r + 1 : Nat) : Int)) (hrpl : a.trk.rpl = (r : Int)) (hr0 : 0 < r)
+    (sq : Sq) (hdig : sq.digital = (abc != 0)) (hsabc : sq.abc = abc) (hdoff : sq.doff = s.doff)
+    (h1 : 1 ≤ sq.start) (h2 : sq.start ≤ sq.end_) (h3 : sq.end_ ≤ s.L) (hcw : sq.C + sq.W = sq.end_ - sq.start + 1)
+    (lines : List (List UInt8)) (res tail : List UInt8) (hgeo : bytes.toList.drop s.doff.toNat = lines.flatten ++ (res ++ tail))
+    (hfull : Geometry.FullLines (isRes (inmapFasta abc)) (r + 1) r lines)
+    (hdat : ∀ c ∈ lines.flatten, isData (inmapFasta abc) c = true) (hres : ∀ c ∈ res, isRes (inmapFasta abc) c = true)
+    (hj : (sq.start.toNat - 1) % r ≤ res.length) (hl : lines.length = (sq.start.toNat - 1) / r) :
+    (revTail a sq).2.1 = (revOf sq s.seq).1 ∧ (revTail a sq).2.2 = (revOf sq s.seq).2.1 :=
+  RevWindowGeo.revTail_residue bytes abc habc s hs a hf hb hr hB hi heof r hbpl hrpl hr0 sq hdig hsabc hdoff h1 h2 h3 hcw lines res tail
+    hgeo hfull hdat hres hj hl
 
 open EaselModel.Sqio.ParseFasta in
 /-- non-vacuity on the executable model: `>a\nACGTAC\n` (DNA, B = 2): forward pass to `eslEOD`, then reverse windows of 4:
